@@ -7,9 +7,9 @@
 (* step), every interleaving with Decode / DecodeBlocked, both endings.    *)
 EXTENDS Frame
 
-CONSTANTS MaxFrames, MaxBody, BodyOct
+CONSTANTS MaxFrames, MaxBody, BodyOct, MaxStreams
 
-VARIABLE orig
+VARIABLES orig, streams     \* streams: how many connections the codec value has served
 Bodies == UNION { [1..n -> BodyOct] : n \in 0..MaxBody }
 Frames == { BE(4 + Len(b), 4) \o b : b \in Bodies }
 FrameLists == UNION { [1..n -> Frames] : n \in 0..MaxFrames }
@@ -21,15 +21,21 @@ MCInit ==
   \E fl \in FrameLists, tail \in Tails, f \in {"eof", "err"} :
      /\ FrameInit(fl, tail, f)
      /\ orig = Concat(fl) \o tail
+     /\ streams = 1
 
 MCNext ==
-  /\ res.k \notin {"err", "panic"}     \* after an error the connection is closed
-  /\ \/ \E k \in 1..Len(stream) : Arrive(k)
-     \/ Decode
-     \/ \E j \in 0..(Len(buf) + Len(stream)) : DecodeBlocked(j)
-  /\ UNCHANGED orig
+  \/ /\ res.k \notin {"err", "panic"}     \* after an error the connection is closed
+     /\ \/ \E k \in 1..Len(stream) : Arrive(k)
+        \/ Decode
+        \/ \E j \in 0..(Len(buf) + Len(stream)) : DecodeBlocked(j)
+     /\ UNCHANGED <<orig, streams>>
+  \/ \* the connection is over (closed after an error, or abandoned): the codec value serves a second one
+     /\ streams < MaxStreams
+     /\ \E fl \in FrameLists, tail \in Tails, f \in {"eof", "err"} :
+          /\ NextStream(fl, tail, f) /\ orig' = Concat(fl) \o tail
+     /\ streams' = streams + 1
 
-MCSpec == MCInit /\ [][MCNext]_<<vars, orig>>
+MCSpec == MCInit /\ [][MCNext]_<<vars, orig, streams>>
 
 ConservedInv == Conserved(orig)
 
